@@ -1,7 +1,7 @@
 (* C01 — property theorems only (iteration-order part; the schema-globals history part is added from Glob/OpenApiState). *)
 From KV Require Import Res.MapSites Res.MapSitesProofs Gen.MapRanges.
 From KV Require Import Base.Prelude.
-From KV Require Import Glob.OpenApiState Glob.OpenApiStateProofs.
+From KV Require Import Glob.OpenApiState Glob.OpenApiStateProofs Glob.OpenApiHistoryProofs Glob.FullState.
 
 (* Every `range` over a map in the kustomize packages imported by krusty either collects keys that are
    sorted afterwards, only builds sets/maps/booleans, or is one of the hand-justified sites of Res/MapSites.v.
@@ -19,26 +19,45 @@ Print Assumptions Gen_mapranges_nonvacuous.
 (* ---------- history independence w.r.t. the OpenAPI package-level state (model Glob/OpenApiState.v) ---------- *)
 
 
-(* Full statement: forall e H T, observe e (run_history e ost0 H) T = observe e ost0 T.
-   It is FALSE on the faithful model (F1): SetSchema(reset=true) with no version/path leaves customSchema,
-   schemaInit and every parsed definition in place. *)
-Theorem C01_history_refuted :
-  exists e h b, env_ok e /\ default_build b = true /\
-                observe e (run_history e ost0 h) b <> observe e ost0 b.
-Proof. exact history_refuted. Qed.
-Print Assumptions C01_history_refuted.
+(* FULL statement (after the repairs of SetSchema / initSchema, /repo 66a399d, 8b04412, 5e76c27): what a build observes of the OpenAPI
+   state does not depend on the builds that ran before it — every build (no openapi field, explicit version, custom
+   schema, rejected combinations, sub-kustomizations with their own field), histories of any length.
+   Hypotheses: env_ok (the default built-in version is compiled in, the kustomization API document parses, their
+   namespaceability paths only mention precomputed kinds); every custom schema that occurs is accepted by parse()
+   (a rejected one makes initSchema panic: covered by the correspondence and the byte-comparison search only).
+   The former witnesses of C01_history_refuted / C01_history_refuted_builtin_leak are kept as regression examples
+   (OpenApiStateProofs.history_leak_after_custom_schema_fixed, history_leak_builtin_into_custom_fixed). *)
+Theorem C01_history_independent :
+  forall e h b, env_ok e -> forallb valid_build h = true -> valid_build b = true ->
+                observe e (run_history e ost0 h) b = observe e ost0 b.
+Proof. exact history_independent. Qed.
+Print Assumptions C01_history_independent.
 
-(* The leak also runs from a default history into a custom-schema build (built-in definitions stay visible). *)
-Theorem C01_history_refuted_builtin_leak :
-  exists e h b, env_ok e /\ forallb default_build h = true /\
-                observe e (run_history e ost0 h) b <> observe e ost0 b.
-Proof. exact history_refuted_builtin_leak. Qed.
-Print Assumptions C01_history_refuted_builtin_leak.
-
-(* What does hold, for histories of any length: if no earlier build installs a custom schema or a non-default
-   version, a build that uses the built-in schema observes the same as when run first. *)
+(* Special case kept from before the repair (no validity hypothesis needed: default builds carry no custom schema). *)
 Theorem C01_history_partial :
   forall e h b, env_ok e -> forallb default_build h = true -> default_build b = true ->
                 observe e (run_history e ost0 h) b = observe e ost0 b.
 Proof. exact history_partial. Qed.
 Print Assumptions C01_history_partial.
+
+
+(* ---------- the full vector of package-level state a build can write ---------- *)
+
+(* The variables the globals translator lists as written outside initialisers are exactly these six (Gen/Globals.v):
+   a NEW written package-level variable in the kustomize packages linked into krusty.Run breaks this obligation.
+   Their treatment (modelled / not written by a build) is tabulated in Glob/FullState.v. *)
+Theorem Gen_written_globals_closed :
+  written_globals =
+  ["api/internal/plugins/builtinconfig.defaultConfig"; "api/internal/plugins/loader.registry";
+   "kyaml/fieldmeta.shortHandRef"; "kyaml/openapi.customSchema"; "kyaml/openapi.globalSchema";
+   "kyaml/openapi.kubernetesOpenAPIVersion"].
+Proof. exact written_globals_closed. Qed.
+Print Assumptions Gen_written_globals_closed.
+
+(* History independence over the full state vector (OpenAPI state machine + the once-parsed default transformer
+   configuration, of which builds only see deep copies of a compile-time constant). *)
+Theorem C01_full_state_history_independent :
+  forall e h b, env_ok e -> forallb valid_build (map gb_build h) = true -> valid_build (gb_build b) = true ->
+                gobserve e (run_ghistory e gstate0 h) b = gobserve e gstate0 b.
+Proof. exact full_state_history_independent. Qed.
+Print Assumptions C01_full_state_history_independent.
